@@ -1,7 +1,10 @@
 ID = "C12"
 LEVEL = "proof"
 TITLE = "Retention removes exactly the expired messages and nothing else"
-LEVEL_TEXT = ("proof (Coq) about a model of RetentionScanner.DoScan / Start over the abstract store of C07 — exactness of an "
+LEVEL_TEXT = ("proof (Coq) about a model of RetentionScanner.DoScan and of Start's run loop as a step machine over (clock, ctx, store) "
+              "(over ALL schedules of clock ticks, cancellations, other clients' operations and loop moves: inert for period <= 0, at most one "
+              "scan start per minute, at most one more mailbox callback after cancel and Join returns, no young message ever removed, a message "
+              "older than the period is gone once a scan started afterwards completes) over the abstract store of C07 — exactness of an "
               "undisturbed scan, no young message removed and every expired one gone under arbitrary interleaving with other "
               "clients, step-bounded stop after cancellation, inert run loop for period <= 0 — tied to the code by running the real "
               "scanner on both real stores with generated age distributions and forced interleavings; promptness is stated in "
@@ -17,13 +20,15 @@ RULE = ("scan: generated age distributions over 0-5 mailboxes (incl. emptied one
         "an id-reuse stream removes every expired message still live (or purges) and delivers fresh mail before the first and between "
         "the scanner's removals; a stream parks a delivery between its mailbox lookup and its mailbox lock across the removal "
         "that empties the mailbox (memory store, verifhook mem.wm.lock); "
-        "a third cancels the context during the n-th callback; start: the run loop with period <= 0 and with cancellation. asm12: the assembled server (server.FullAssembly + Services.Start, child process) serves for 1.5 s a file store that already holds messages of mixed ages, with period 0 and positive periods: afterwards no unexpired message (period 0: no message at all) may be missing. "
+        "a third cancels the context during the n-th callback; start: the run loop with period <= 0 and with cancellation. asm12: the assembled server (server.FullAssembly + Services.Start, child process) serves for 1.5 s a file store that already holds messages of mixed ages, with period 0 and positive periods: afterwards no unexpired message (period 0: no message at all) may be missing; the surviving messages are compared with what the run-loop model leaves after the seconds served. "
         "distinct = distinct input line; non-trivial = the store holds at least one message before the scan.")
 TRUSTED = [
     "Model/StoreSpec.v stands for both stores (C07), store operations are atomic (C09)",
     "the forced interleaving is produced by a wrapper around the storage.Store handed to the real RetentionScanner and by the "
     "verifhook points file.visit.l2/l3 inside VisitMailboxes and mem.wm.lock inside withMailbox",
     "monotone clock: a message delivered after the scan started is younger than the cutoff",
+    "the run loop's clock is not fake-able (retention.go reads time.Now / time.After directly and hooks may not touch existing lines): "
+    "the loop model is tied to the code through the `start` cases (real Start, real minute in the thorough tier) and the assembled-server cases asm12",
 ]
 ASSUMPTIONS = ["message ages are at least 2 s away from the retention cutoff in every generated case"]
 NOT_PROVED = []
